@@ -20,64 +20,25 @@ from vlib import discharge, families, harness, netcheck, numrun, ref_metanet, ru
 PID = "C01"
 
 
-def compare(topo, enc, ref, D, prover, rng, style, out, numeric=None):
-    """prove every component of enc equal to the oracle."""
-    for key, vals in enc.outs.items():
-        if vals is None:
-            out["violations"].append(_exec_violation(topo, enc, style, f"no next state for {key}"))
-            continue
-        rterms = ref.next[key]
-        if len(vals) != len(rterms):
-            out["violations"].append(_exec_violation(topo, enc, style, f"{key}: {len(vals)} components, expected {len(rterms)}"))
-            continue
-        for i, (s, r) in enumerate(zip(vals, rterms)):
-            r = netcheck.apply_numeric(r, numeric)
-            dom = list(D) + [netcheck.apply_numeric(c, numeric) for c in ref.extra_domain.get((key[0], key[1], i), [])]
-            goal = s.t == r
-            v = prover.prove(goal, domain=dom, pc=enc.pc)
-            out["n_queries"] += 1
-            out["levels"][v.level if v.status == "unsat" else v.status] = out["levels"].get(v.level if v.status == "unsat" else v.status, 0) + 1
-            if v.level != "L0":
-                out["nontrivial"] += 1
-            if len(out["samples"]) < 3 and v.level != "L0":
-                out["samples"].append({"topology": topo.describe(), "encoding": enc.name, "output": f"{key[1]}_{key[0]}[{i}]",
-                                       "path_condition": [str(c)[:200] for c in enc.pc], "verdict": v.status,
-                                       "ladder_level": v.level, "ms": round(v.ms, 1)})
-            if v.status == "unsat":
-                continue
-            if v.status != "sat":
-                out["inconclusive"].append(f"{topo.name} {enc.name} {key}[{i}]: solver {v.status}")
-                continue
-            # replay on the real float code
-            env = netcheck.model_env(topo, v.model, rng, numeric)
-            got, exc = netcheck.real_value(topo, enc.name, env, key, i, style, None, numeric)
-            want = zeval.evalf(r, env)
-            if exc is not None:
-                out["inconclusive"].append(f"{topo.name} {enc.name} {key}[{i}]: replay raised {exc!r}")
-            elif not numrun.close(got, want, 1e-7, 1e-9):
-                out["violations"].append({
-                    "key": f"value:{enc.name.split('#')[0]}:{topo.name}:{key[1]}_{key[0]}[{i}]",
-                    "group": f"value:{topo.name}",
-                    "what": f"{topo.describe()} | {enc.name} next {key[1]}_{key[0]}[{i}] = {got!r}, METANET equations give {want!r}",
-                    "replay": {"property": PID, "kind": "value", "topo": topo.to_json(), "style": style,
-                               "encoding": enc.name, "target": [key[0], key[1], i], "env": env, "numeric": numeric,
-                               "impl": got, "ref": want},
-                })
-            else:
-                out["inconclusive"].append(f"{topo.name} {enc.name} {key}[{i}]: sat model does not reproduce (impl={got!r} ref={want!r})")
-
-
-def _exec_violation(topo, enc, style, msg):
-    return {"key": f"exec:{enc.name.split('#')[0]}:{topo.name}", "group": f"exec:{msg[:60]}", "what": f"{topo.describe()} | {enc.name}: {msg}",
-            "replay": {"property": PID, "kind": "exec", "topo": topo.to_json(), "style": style, "encoding": enc.name, "msg": msg}}
+def value_violation(topo, enc, style, key, i, env, numeric, r):
+    got, exc = netcheck.real_value(topo, enc.name, env, key, i, style, None, numeric)
+    envn = dict(env)
+    if numeric:
+        envn.update({k: float(v) for k, v in numeric.items()})
+    want = zeval.evalf(r, envn)
+    if exc is not None or numrun.close(got, want, 1e-7, 1e-9):
+        return None
+    return {"key": f"value:{enc.name.split('#')[0]}:{topo.name}:{key[1]}_{key[0]}[{i}]", "group": f"value:{topo.name}",
+            "what": f"{topo.describe()} | {enc.name} next {key[1]}_{key[0]}[{i}] = {got!r}, METANET equations give {want!r}",
+            "replay": {"property": PID, "kind": "value", "topo": topo.to_json(), "style": style, "encoding": enc.name, "target": [key[0], key[1], i],
+                       "env": env, "numeric": numeric, "impl": got, "ref": want}}
 
 
 def work(item):
     tj, style, seed, timeout_ms, engines = item
     topo = T_.Topo.from_json(tj)
     rng = random.Random(seed)
-    out = {"item": topo.name, "n_queries": 0, "nontrivial": 0, "levels": {}, "samples": [], "violations": [],
-           "inconclusive": [], "paths": 0, "encodings": 0, "functions": 0}
+    acc = netcheck.Acc(topo.name)
     ref = ref_metanet.Ref(topo)
     D = ref_metanet.admissible_domain(topo)
     prover = discharge.Prover(timeout_ms=timeout_ms, seed=seed)
@@ -87,34 +48,43 @@ def work(item):
     try:
         if "numpy" in engines:
             encs += netcheck.numpy_encodings(topo, style, None, D)
-        # lanes must be numeric on the CasADi side when phi is given (the code evaluates `lanes_drop == 0` in Python)
-        numeric = {f"lam_{l.name}": 1 + (k % 3) for k, l in enumerate(topo.links)} if topo.phi else None
+        numeric = netcheck.casadi_numeric_for(topo)
         for st in ("SX", "MX"):
             if st in engines:
                 e = netcheck.casadi_encoding(topo, st, numeric)
                 e.extra["numeric"] = numeric
                 encs.append(e)
     except (symx.UnsupportedOp, symx.Inconclusive) as e:
-        out["inconclusive"].append(f"{topo.name}: {type(e).__name__}: {e}")
-        return out
+        acc.inconclusive(f"{topo.name}: {type(e).__name__}: {e}")
+        return acc.done()
     for enc in encs:
-        out["encodings"] += 1
+        acc.d["encodings"] += 1
         if enc.exc is not None:
-            out["violations"].append(_exec_violation(topo, enc, style, f"raised {type(enc.exc).__name__}: {enc.exc}"))
+            acc.exec_violation(PID, topo, enc.name, style, f"raised {type(enc.exc).__name__}: {enc.exc}")
             continue
         if enc.name.startswith("numpy"):
-            out["paths"] += 1
+            acc.d["paths"] += 1
         numeric = enc.extra.get("numeric")
         bad = netcheck.validate_encoding(topo, enc, rng, style, None, numeric)
         if bad:
-            out["inconclusive"].append(f"{topo.name}: encoder validation failed: {bad[0]}")
+            acc.inconclusive(f"{topo.name}: encoder validation failed: {bad[0]}")
             continue
-        compare(topo, enc, ref, D, prover, rng, style, out, numeric)
-    out["stats"] = prover.stats.asdict()
-    rec = discharge.RECORD or []
-    discharge.RECORD = None
-    out["recorded_smt2"] = rec[::max(1, len(rec) // 3)][:3]
-    return out
+        acc.d["validated"] += 1
+        for key, vals in enc.outs.items():
+            rterms = ref.next[key]
+            if vals is None or len(vals) != len(rterms):
+                acc.exec_violation(PID, topo, enc.name, style, f"next state {key} missing or of wrong size")
+                continue
+            for i, (s, r) in enumerate(zip(vals, rterms)):
+                r = netcheck.apply_numeric(r, numeric)
+                dom = list(D) + [netcheck.apply_numeric(c, numeric) for c in ref.extra_domain.get((key[0], key[1], i), [])]
+
+                def on_sat(model, key=key, i=i, enc=enc, numeric=numeric, r=r):
+                    return value_violation(topo, enc, style, key, i, netcheck.model_env(topo, model, rng, numeric), numeric, r)
+
+                acc.query(prover, topo, enc.name, f"{key[1]}_{key[0]}[{i}] == METANET equations", s.t == r, dom, enc.pc, on_sat)
+    netcheck.take_recorded(acc, 3)
+    return acc.done(prover)
 
 
 def replay(rec):
@@ -162,32 +132,16 @@ def main():
         else:
             items.append((t.to_json(), styles[k % 2], args.seed + k, timeout, ("numpy", "SX", "MX")))
     results = harness.pmap(work, items, args.serial)
-    viol, inc, samples = [], [], []
-    tot = {"n_queries": 0, "nontrivial": 0, "paths": 0, "encodings": 0}
-    levels = {}
-    stats = discharge.Stats()
-    for r in results:
-        if "error" in r:
-            inc.append(f"{r['item']}: worker error {r['error']}")
-            continue
-        viol += r["violations"]
-        inc += r["inconclusive"]
-        samples += r["samples"][:1]
-        for k in tot:
-            tot[k] += r[k]
-        for k, v in r["levels"].items():
-            levels[k] = levels.get(k, 0) + v
-        st = r.get("stats", {})
-        stats.solver_ms += st.get("solver_s", 0) * 1000
-        stats.cong_queries += st.get("congruence_queries", 0)
-        stats.cong_merged += st.get("congruence_merges", 0)
+    viol, inc, tot, levels, samples, st_, extra_ = netcheck.summarize(results)
+    tot["n_queries"] = tot["n_queries"]
+    stats = type("S", (), {"solver_ms": st_["solver_s"] * 1000, "cong_queries": st_["congruence_queries"], "cong_merged": st_["congruence_merges"]})()
     cvc5_stats, cvc5_problems = netcheck.cvc5_crosscheck(results, 48, args.serial) if args.thorough else ({"queries": 0, "note": "thorough tier only"}, [])
     inc += cvc5_problems
     coverage = {
         "cvc5_agreement": cvc5_stats,
         "states": tot["n_queries"],
         "transitions": tot["encodings"],
-        "traces_validated_against_impl": tot["encodings"],
+        "traces_validated_against_impl": tot["validated"],
         "programs": len(items),
         "evaluations": tot["encodings"],
         "distinct_nontrivial": tot["nontrivial"],
@@ -198,7 +152,7 @@ def main():
                 "(symbolic runs), each validated against float execution of the real code",
         "queries_by_result": levels,
         "numpy_paths": tot["paths"],
-        "solver_s": round(stats.solver_ms / 1000, 2),
+        "solver_s": round(stats.solver_ms / 1000, 2), "concretised_retries": extra_.get("concretised_retries", 0),
         "congruence_queries": stats.cong_queries,
         "congruence_merges": stats.cong_merged,
         "functions_encoded": ["Network.step", "Link.step_dynamics", "Link.get_flow", "LinkWithVsl._get_equilibrium_speed",
